@@ -611,10 +611,12 @@ func (d TSDecls) checkSimple(v any, t *TSType, path string, depth int) []TSProbl
 			if _, ok := v.(bool); !ok {
 				return bad("boolean")
 			}
-		case "null", "undefined":
+		case "null":
 			if v != nil {
 				return bad(t.Name)
 			}
+		case "undefined":
+			return bad("undefined (JSON cannot carry it: the member must be absent)")
 		case "object":
 			if _, ok := v.(map[string]any); !ok {
 				return bad("object")
